@@ -25,19 +25,19 @@ type RoomSpec struct {
 }
 
 type FaultCase struct {
-	Sched   SchedSpec  `json:"sched"`
-	World   WorldSpec  `json:"world"`
-	Client  string     `json:"client"` // inline | simgrpc
-	Key     string     `json:"key"`
-	Prev    int        `json:"prev"` // size of the previous value, -1 none
-	L       int        `json:"len"`
-	Via     string     `json:"via"`  // set | setr | create
-	Shape   string     `json:"shape,omitempty"`
-	Kind    string     `json:"kind"` // enospc | reader | cancel | cut | none
-	Rooms   []RoomSpec `json:"rooms,omitempty"`
-	FailAt  int        `json:"fail_at,omitempty"` // reader error / cancel / cut position (source offset or message number)
-	CutDir  string     `json:"cut_dir,omitempty"`
-	Writes  []int      `json:"writes,omitempty"`
+	Sched  SchedSpec  `json:"sched"`
+	World  WorldSpec  `json:"world"`
+	Client string     `json:"client"` // inline | simgrpc
+	Key    string     `json:"key"`
+	Prev   int        `json:"prev"` // size of the previous value, -1 none
+	L      int        `json:"len"`
+	Via    string     `json:"via"` // set | setr | create
+	Shape  string     `json:"shape,omitempty"`
+	Kind   string     `json:"kind"` // enospc | reader | cancel | cut | none
+	Rooms  []RoomSpec `json:"rooms,omitempty"`
+	FailAt int        `json:"fail_at,omitempty"` // reader error / cancel / cut position (source offset or message number)
+	CutDir string     `json:"cut_dir,omitempty"`
+	Writes []int      `json:"writes,omitempty"`
 }
 
 var errSource = errors.New("source reader failed (injected)")
@@ -45,12 +45,12 @@ var errSource = errors.New("source reader failed (injected)")
 // failingReader returns the content up to FailAt, then an error; cancelAt >= 0 cancels a
 // context instead when that offset is reached.
 type failingReader struct {
-	b       []byte
-	off     int
-	failAt  int
-	cancel  context.CancelFunc
-	fired   *bool
-	chunk   int
+	b      []byte
+	off    int
+	failAt int
+	cancel context.CancelFunc
+	fired  *bool
+	chunk  int
 }
 
 func (r *failingReader) Read(p []byte) (int, error) {
